@@ -14,14 +14,18 @@ then).  The theorems:
   `Gen.ParseRules.rules`: a token on which `peek_valid_expression` answers true has an infix function.
   A change of the Rust table that gives a prefix-only token (`!`, `~`, a literal, …) a precedence
   reintroduces the hang and breaks this fact.
-* `progress` — with fuel `2·|ts| + 1` (`+ 2` for the loop and the argument list) no function returns
-  `fuel`, and each consumes at least one token when it succeeds (the loop: does not add tokens).
+* `progress` — with fuel `2·|ts| + 1` (`+ 2` for the loop, the argument list, `if` and statements, `+ 3` for
+  blocks) no function returns `fuel`, and each consumes at least one token when it succeeds (the loop and
+  the block: do not add tokens).
 * `parseTop_total`, `parseTokens_total` — the statement-level entry with the driver's fuel `2·|ts| + 4`
   ends with `ok`, `err` or `skip` for EVERY token list.
 * `parse_text_total` — with `C01.scan_total`: for every source string, scanning ends without panic and the
   parser model ends on its tokens.  `skip` = the text is outside the modelled sub-grammar (one expression
   statement over literals, identifiers, groups, prefix/binary operators, assignment, ranges, index, call);
   for those texts nothing is claimed about the real parser here (C01's differential run covers them).
+* `parseProgram_total`, `parseProgramTokens_total`, `parse_program_text_total` — the same for whole programs
+  (`parse_program` with `let`, `return`, expression statements, blocks, `while`, `loop`, `break`/`continue`,
+  `fn` statements, and `if`/`else`, `fn` literals as expressions).
 -/
 namespace P2sh.Props.C01Parse
 open P2sh.Parser P2sh.Gen.ParseRules
@@ -113,20 +117,102 @@ theorem identAtom_nf (t : Tok) : identAtom t ≠ .fuel := by cases t <;> simp [i
 theorem decimalAtom_nf (t : Tok) : decimalAtom t ≠ .fuel := by cases t <;> simp [decimalAtom]
 theorem boolAtom_nf (t : Tok) : boolAtom t ≠ .fuel := by cases t <;> simp [boolAtom]
 
+theorem skipSemi_le (ts : List Tok) : (skipSemi ts).length ≤ ts.length := by
+  unfold skipSemi; split
+  · exact tail_le ts
+  · exact Nat.le_refl _
+
+theorem labelOf_le (ts : List Tok) : (labelOf ts).2.length ≤ ts.length := by
+  unfold labelOf; split
+  · exact Nat.le_trans (skipSemi_le _) (tail_le ts)
+  · exact skipSemi_le ts
+
+theorem parseParamsTail_le : ∀ (ts : List Tok) (acc ps : List String) (r : List Tok),
+    parseParamsTail ts acc = .ok (ps, r) → r.length ≤ ts.length
+  | c :: p :: rest, acc, ps, r, h => by
+    cases p <;> simp only [parseParamsTail] at h <;> split at h <;>
+      first
+      | (have := parseParamsTail_le rest _ ps r h; simp only [List.length_cons]; omega)
+      | (simp at h; done)
+      | (split at h
+         · simp only [Res.ok.injEq, Prod.mk.injEq] at h; rw [← h.2]; simp
+         · simp at h)
+  | [c], acc, ps, r, h => by
+    simp only [parseParamsTail] at h
+    split at h
+    · simp at h
+    · split at h
+      · simp only [Res.ok.injEq, Prod.mk.injEq] at h; rw [← h.2]; simp
+      · simp at h
+  | [], acc, ps, r, h => by simp [parseParamsTail] at h
+
+theorem parseParamsTail_nf : ∀ (ts : List Tok) (acc : List String), parseParamsTail ts acc ≠ .fuel
+  | c :: p :: rest, acc => by
+    cases p <;> simp only [parseParamsTail] <;> split <;>
+      first
+      | exact parseParamsTail_nf rest _
+      | (simp; done)
+      | (split <;> simp)
+  | [c], acc => by simp only [parseParamsTail]; split <;> (try split) <;> simp
+  | [], acc => by simp [parseParamsTail]
+
+theorem parseParams_good (ts : List Tok) : Le (parseParams ts) ts.length := by
+  unfold parseParams
+  split
+  · exact Le_ok (tail_le ts)
+  · split
+    · rename_i s0 rest0 _
+      refine ⟨?_, fun ps r h => ?_⟩
+      · exact parseParamsTail_nf _ _
+      · have := parseParamsTail_le rest0 [s0] ps r h; simp only [List.length_cons]; omega
+    · exact Le_skip
+
+-- decomposes a goal `Lt/Le (body at fuel F+1) n` given the induction hypotheses `ihP … ihS` and `hF` in context
+set_option hygiene false in
+macro "prog_auto" : tactic => `(tactic|
+  repeat (first
+    | exact Lt_err | exact Lt_skip | exact Le_err | exact Le_skip
+    | split
+    | (apply Lt_ok; omega) | (apply Le_ok; omega)
+    | (refine Lt_of_Le (ihL _ _ _ (by omega)) (by omega))
+    | (refine Le_mono (ihL _ _ _ (by omega)) (by omega))
+    | (refine Lt_mono (ihT _ _ (by omega)) (by omega))
+    | (refine Lt_mono (ihI _ (by omega)) (by omega))
+    | (refine Lt_of_Le (ihB _ _ (by omega)) (by omega))
+    | (refine Le_mono (ihB _ _ (by omega)) (by omega))
+    | (refine bind_cases (Lt · _) Lt_err Lt_skip (ihP _ _ (by omega)).1 (fun a ha => ?_); obtain ⟨x, r⟩ := a;
+       have := (ihP _ _ (by omega)).2 _ _ ha; have := tail_le r; have := tail_le r.tail; have := tail_le r.tail.tail; have := skipSemi_le r; dsimp only)
+    | (refine bind_cases (Le · _) Le_err Le_skip (ihP _ _ (by omega)).1 (fun a ha => ?_); obtain ⟨x, r⟩ := a;
+       have := (ihP _ _ (by omega)).2 _ _ ha; have := tail_le r; have := tail_le r.tail; have := tail_le r.tail.tail; have := skipSemi_le r; dsimp only)
+    | (refine bind_cases (Lt · _) Lt_err Lt_skip (ihB _ _ (by omega)).1 (fun a ha => ?_); obtain ⟨x, r⟩ := a;
+       have := (ihB _ _ (by omega)).2 _ _ ha; have := tail_le r; have := tail_le r.tail; have := tail_le r.tail.tail; dsimp only)
+    | (refine bind_cases (Le · _) Le_err Le_skip (ihB _ _ (by omega)).1 (fun a ha => ?_); obtain ⟨x, r⟩ := a;
+       have := (ihB _ _ (by omega)).2 _ _ ha; have := tail_le r; have := tail_le r.tail; have := tail_le r.tail.tail; dsimp only)
+    | (refine bind_cases (Lt · _) Lt_err Lt_skip (ihI _ (by omega)).1 (fun a ha => ?_); obtain ⟨x, r⟩ := a;
+       have := (ihI _ (by omega)).2 _ _ ha; dsimp only)
+    | (refine bind_cases (Le · _) Le_err Le_skip (ihS _ (by omega)).1 (fun a ha => ?_); obtain ⟨x, r⟩ := a;
+       have := (ihS _ (by omega)).2 _ _ ha; dsimp only)
+    | (refine bind_cases (Lt · _) Lt_err Lt_skip (parseParams_good _).1 (fun a ha => ?_); obtain ⟨x, r⟩ := a;
+       have := (parseParams_good _).2 _ _ ha; have := tail_le r; have := tail_le r.tail; dsimp only)))
+
+set_option maxHeartbeats 2000000 in
 /-- **progress**: with `2·|ts| + 1` fuel (`+ 2` for the loop and the argument list) every function of the
 parser model ends, and what it leaves is shorter than what it got (the loop: not longer) -/
 theorem progress : ∀ F,
     (∀ c ts, 2 * ts.length + 1 ≤ F → Lt (parseExpr F c ts) ts.length) ∧
     (∀ c l ts, 2 * ts.length + 2 ≤ F → Le (loop F c l ts) ts.length) ∧
     (∀ ts, 2 * ts.length + 2 ≤ F → Lt (parseArgs F ts) ts.length) ∧
-    (∀ acc ts, 2 * ts.length + 1 ≤ F → Lt (parseArgsTail F acc ts) ts.length) := by
+    (∀ acc ts, 2 * ts.length + 1 ≤ F → Lt (parseArgsTail F acc ts) ts.length) ∧
+    (∀ ts, 2 * ts.length + 2 ≤ F → Lt (parseIf F ts) ts.length) ∧
+    (∀ acc ts, 2 * ts.length + 3 ≤ F → Le (parseBlock F acc ts) ts.length) ∧
+    (∀ ts, 2 * ts.length + 2 ≤ F → Lt (parseStmt F ts) ts.length) := by
   intro F
   induction F with
   | zero =>
-    refine ⟨?_, ?_, ?_, ?_⟩ <;> intros <;> omega
+    refine ⟨?_, ?_, ?_, ?_, ?_, ?_, ?_⟩ <;> intros <;> omega
   | succ F ih =>
-    obtain ⟨ihP, ihL, ihA, ihT⟩ := ih
-    refine ⟨?_, ?_, ?_, ?_⟩
+    obtain ⟨ihP, ihL, ihA, ihT, ihI, ihB, ihS⟩ := ih
+    refine ⟨?_, ?_, ?_, ?_, ?_, ?_, ?_⟩
     · intro c ts hF
       cases ts with
       | nil => rw [parseExpr.eq_2]; exact Lt_err
@@ -163,6 +249,13 @@ theorem progress : ∀ F,
             · split
               · exact Lt_err
               · exact Lt_of_Le (ihL c _ rest'.tail (by omega)) (by omega)
+            · exact Lt_err
+          · prog_auto
+          · have := tail_le rest
+            split
+            · rename_i hlp
+              have := tail_lt_of_peek hlp (by decide)
+              prog_auto
             · exact Lt_err
     · intro c l ts hF
       cases ts with
@@ -231,6 +324,26 @@ theorem progress : ∀ F,
       · split
         · rename_i h; exact Lt_ok (tail_lt_of_peek h (by decide))
         · exact Lt_err
+    · intro ts hF
+      rw [parseIf.eq_2]
+      prog_auto
+    · intro acc ts hF
+      rw [parseBlock.eq_2]
+      have := tail_le ts
+      prog_auto
+    · intro ts hF
+      cases ts with
+      | nil => rw [parseStmt.eq_2]; exact Lt_err
+      | cons t rest =>
+        simp only [List.length_cons] at hF ⊢
+        rw [parseStmt.eq_3]
+        have := tail_le rest
+        have := tail_le rest.tail
+        have := tail_le rest.tail.tail
+        have := skipSemi_le rest
+        have := labelOf_le rest
+        have : (t :: rest).length = rest.length + 1 := rfl
+        prog_auto
 
 /-! ## totality -/
 
@@ -276,6 +389,46 @@ theorem parse_text_total (src : String) :
   obtain ⟨ts, h⟩ := P2sh.Props.C01.scan_total src
   exact ⟨ts, h, parseTokens_cases ts⟩
 
+/-! ## whole programs (`parse_program`: statements until `Eof`) -/
+
+theorem parseProgram_total : ∀ (F : Nat) (acc : List PStmt) (ts : List Tok), 2 * ts.length + 3 ≤ F →
+    parseProgram F acc ts ≠ .fuel := by
+  intro F
+  induction F with
+  | zero => intros; omega
+  | succ F ih =>
+    intro acc ts hF
+    rw [parseProgram]
+    split
+    · simp
+    · have hS := (progress F).2.2.2.2.2.2 ts (by omega)
+      refine bind_cases (· ≠ .fuel) (by simp) (by simp) hS.1 (fun a ha => ?_)
+      obtain ⟨s, rest⟩ := a
+      have := hS.2 s rest ha
+      exact ih _ rest (by omega)
+
+/-- **parseProgramTokens_total**: the program-level parser model, with the driver's fuel `2·|ts| + 4`, ends
+with a statement list, with "an error was reported", or with `skip`, on every list of scanner tokens -/
+theorem parseProgramTokens_total (ts : List P2sh.Scanner.Token) : parseProgramTokens ts ≠ .fuel := by
+  unfold parseProgramTokens
+  exact parseProgram_total _ _ _ (by simp)
+
+/-- **parse_program_text_total**: for every source text, scanning ends without panic and the program-level
+parser model ends on the tokens: with the statement list (`ok`), with "an error was reported" (`err`), or
+with `skip` = the text uses a construct outside the model (strings, floats, arrays, maps, `match`, dot
+expressions, labels, filters, …), about which nothing is claimed here -/
+theorem parse_program_text_total (src : String) :
+    ∃ ts, P2sh.Scanner.scan src = .ok ts ∧
+      ((∃ p, parseProgramTokens ts = .ok p) ∨ parseProgramTokens ts = .err ∨ parseProgramTokens ts = .skip) := by
+  obtain ⟨ts, h⟩ := P2sh.Props.C01.scan_total src
+  refine ⟨ts, h, ?_⟩
+  have := parseProgramTokens_total ts
+  cases hp : parseProgramTokens ts with
+  | ok p => exact Or.inl ⟨p, rfl⟩
+  | err => exact Or.inr (Or.inl rfl)
+  | skip => exact Or.inr (Or.inr rfl)
+  | fuel => exact absurd hp this
+
 /-! ## non-vacuity: the hang the table fact excludes
 
 If `!` had a precedence (seeded change C01-m1), `a ! b` would make the real `while` loop spin: with the
@@ -285,5 +438,12 @@ example : infixKind "Bang" = .none ∧ precRank "Bang" = 0 := by decide +kernel
 example : parseTop 4 [.ident "a", .t "Plus"] = .err := by rfl
 example : parseTop 3 [.ident "a", .t "Plus", .ident "b"] = .fuel := by rfl     -- less than the bound: not enough
 example : parseTop 7 [.ident "a", .t "Plus", .ident "b"] = .ok (.bin "Plus" (.ident "a") (.ident "b")) := by rfl
+-- `let x = 1; while x { x = 2 }`
+example : parseProgram 40 [] [.t "Let", .ident "x", .t "Assign", .int 1, .t "Semicolon", .t "While", .ident "x", .t "LeftBrace",
+    .ident "x", .t "Assign", .int 2, .t "RightBrace", .t "Eof"] =
+    .ok [.letS "x" (.int 1), .whileS (.ident "x") [.exprS (.assign (.ident "x") (.int 2))]] := by rfl
+-- an unterminated block is accepted (as in the code); `let` without a name is an error
+example : parseProgram 10 [] [.t "LeftBrace", .int 1, .t "Eof"] = .ok [.block [.exprS (.int 1)]] := by rfl
+example : parseProgram 10 [] [.t "Let", .t "Assign", .int 1, .t "Eof"] = .err := by rfl
 
 end P2sh.Props.C01Parse
